@@ -81,10 +81,12 @@ def keyed_collection(ctx: Context, ci, name: str):
     flow = ctx.flow(fi)
 
     def guard_of(node) -> Optional[tuple]:
-        gs = enclosing_ifs(fi, node)
-        if not gs:
+        # what is known to hold where the entry is added: enclosing tests and the guard clauses before it, in one normal form
+        from .common import facts as _facts
+        fs = _facts(ctx, fi, node)
+        if not fs:
             return None
-        return tuple((flow.canon(st.test), inb) for st, inb in gs)
+        return tuple(sorted(fs))
 
     base_names = set()
     for r in fi.returns():
